@@ -17,8 +17,12 @@ import (
 	"encoding/json"
 	"flag"
 	"fmt"
+	"go/ast"
+	"go/parser"
+	"go/token"
 	"math/rand"
 	"os"
+	"strconv"
 	"strings"
 	"sync/atomic"
 	"time"
@@ -52,6 +56,8 @@ type rec struct {
 }
 
 var caps = []int{0, 1, 2, 64}
+
+var testStrings []string
 
 var hangs int
 
@@ -404,6 +410,25 @@ var corpus = []string{
 	"\"p\"@[] \"x\"^^type:text", "\"x\"^^type:text \"p\"@[]", "\"x\" \"p\"@[]", "\"@[\"^^type:text", "\"@[x\"@[]", "\"^^type:\"@[]",
 }
 
+// stringLiterals returns the values of all string literals of a Go source file (relative to cwd = repository root)
+func stringLiterals(path string) []string {
+	fset := token.NewFileSet()
+	f, err := parser.ParseFile(fset, path, nil, 0)
+	if err != nil {
+		return nil
+	}
+	var out []string
+	ast.Inspect(f, func(n ast.Node) bool {
+		if bl, ok := n.(*ast.BasicLit); ok && bl.Kind == token.STRING {
+			if v, err := strconv.Unquote(bl.Value); err == nil {
+				out = append(out, v)
+			}
+		}
+		return true
+	})
+	return out
+}
+
 func main() {
 	seed := flag.Int64("seed", 1, "PRNG seed")
 	n := flag.Int("n", 300, "number of statement bases (each with variants), mutations and random inputs scale with it")
@@ -434,6 +459,25 @@ func main() {
 	if want("corpus") {
 		for _, s := range corpus {
 			emit("corpus", s, -1, "", nil)
+		}
+	}
+	// every string literal of the repository's own lexer / grammar / planner tests (statements and fragments)
+	if want("tests") {
+		for _, f := range []string{"bql/lexer/lexer_test.go", "bql/grammar/grammar_test.go", "bql/planner/planner_test.go",
+			"bql/semantic/semantic_test.go", "bql/semantic/hooks_test.go"} {
+			for _, lit := range stringLiterals(f) {
+				if len(lit) > 0 && len(lit) <= 1500 {
+					idx := emit("tests", lit, -1, "", nil)
+					testStrings = append(testStrings, lit)
+					// one white-space variant of every test string that lexes without error
+					if idx >= 0 && want("ws") && strings.ContainsAny(lit, " \t\n") {
+						toks, _, _ := lexAll(lit)
+						if sp, ok := spans(lit, toks); ok && len(toks) > 2 {
+							emit("ws", wsVariant(rng, lit, sp), idx, "ws", nil)
+						}
+					}
+				}
+			}
 		}
 	}
 
@@ -525,7 +569,7 @@ func main() {
 		}
 	}
 	if want("mut") {
-		pool := append(append([]string{}, bases...), corpus...)
+		pool := append(append(append([]string{}, bases...), corpus...), testStrings...)
 		for i := 0; i < 2**n; i++ {
 			emit("mut", mutate(rng, pool[rng.Intn(len(pool))]), -1, "", nil)
 		}
